@@ -99,11 +99,11 @@ func searchSpecs(thorough bool) []searchSpec {
 			{"s1f4q1", "s1f4q1", lettersBase, 5},
 			{"default", "default", lettersBase, 5},
 			{"quota-utxo1-reap2", "s3f2q1-utxo1-reap2", lettersQuota, 5},
-			{"boundary-p", "bnd-default", boundaryLetters("p"), 4},
-			{"boundary-t", "bnd-default", boundaryLetters("t"), 4},
-			{"boundary-k", "bnd-default", boundaryLetters("k"), 4},
-			{"boundary-u", "bnd-default", boundaryLetters("u"), 4},
-			{"boundary-v", "bnd-default", boundaryLetters("v"), 4},
+			{"boundary-p", "bnd-default", boundaryLetters("p"), 5},
+			{"boundary-t", "bnd-default", boundaryLetters("t"), 5},
+			{"boundary-k", "bnd-default", boundaryLetters("k"), 5},
+			{"boundary-u", "bnd-default", boundaryLetters("u"), 5},
+			{"boundary-v", "bnd-default", boundaryLetters("v"), 5},
 		}
 	}
 	return []searchSpec{
